@@ -19,6 +19,10 @@
 #include <sys/mman.h>
 #include <sys/eventfd.h>
 
+/* the warm-up cycle in init() runs outside any item: it must not report */
+static int g_warm;
+#define mc_fail(...) do { if (!g_warm) (mc_fail)(__VA_ARGS__); } while (0)
+
 enum { F_NAME, F_REVERSE, F_EDNS, F_SEARCH, F_RETX };
 struct item { uint8_t fam, tcp; uint16_t a, b, c, d, e; };
 static struct item *items; static size_t n_items, cap_items;
@@ -365,7 +369,9 @@ static void init(void)
 {
 	if (!dp_alloc_trace_install()) mcx_alloc_install();
 	event_set_log_callback(dp_quiet_log);
+	g_warm = 1;
 	for (int tcp = 0; tcp < 2; tcp++) { snprintf(g_ctx, sizeof g_ctx, "init"); if (env_open(tcp) == 0) run_single("plain", "example.test", 12, 1, 1, 3, "1232", 1232, tcp, 0); env_close(); }
+	g_warm = 0;
 }
 
 int main(int argc, char **argv)
